@@ -55,9 +55,16 @@ func (b *filler) fill(d *tv.Desc, v reflect.Value) {
 		if mode == 0 {
 			setNum(d, v, 1000+k)
 		}
-	case d.K == "string":
+	case d.K == "string", d.K == "pool:MethStr":
 		if mode == 0 {
 			v.SetString("v" + strconv.Itoa(k))
+		}
+	case d.K == "pool:MethSlice":
+		switch mode {
+		case 0:
+			v.Set(reflect.ValueOf(MethSlice{1000 + k}))
+		case 2:
+			v.Set(reflect.ValueOf(MethSlice{}))
 		}
 	case d.K == "bool":
 		v.SetBool(mode == 0)
@@ -169,8 +176,10 @@ func (m *model) inputFor(c *cand, i int, fl flags) (txt string, invalid bool) {
 	switch {
 	case isNumeric(base.K):
 		txt = num
-	case base.K == "string":
+	case base.K == "string", base.K == "pool:MethStr":
 		txt = quote("w" + strconv.Itoa(i))
+	case base.K == "pool:MethSlice":
+		txt = "[" + num + "]"
 	case base.K == "bool":
 		txt = "true"
 	case base.K == "slice":
@@ -223,8 +232,10 @@ func (m *model) setLeaf(d *tv.Desc, v reflect.Value, i int) {
 	switch {
 	case isNumeric(d.K):
 		setNum(d, v, 5000+i)
-	case d.K == "string":
+	case d.K == "string", d.K == "pool:MethStr":
 		v.SetString("w" + strconv.Itoa(i))
+	case d.K == "pool:MethSlice":
+		v.Set(reflect.ValueOf(MethSlice{len("[" + strconv.Itoa(5000+i) + "]")}))
 	case d.K == "bool":
 		v.SetBool(true)
 	case d.K == "ptr":
